@@ -610,13 +610,13 @@ Proof.
     intros q Hq Hnd. unfold reset_dependents. rewrite val_at_map_seq by assumption.
     destruct (p_sel (port_at a q)) as [s'|]; [|apply Sh1; assumption].
     destruct (Nat.eqb s' i); [|apply Sh1; assumption].
-    unfold default_of. apply (w_shape a WF q Hq). }
+    unfold default_of. apply (w_shape a WF q Hq). exact Hnd. }
   destruct (is_enabler a i && negb (is_on (val_at s i)) && is_on (val_at st2 i)); [|exact S2].
   destruct S2 as [L2 Sh2].
   split; [unfold allocate; rewrite map_length, seq_length; reflexivity|].
   intros q Hq Hnd. unfold allocate. rewrite val_at_map_seq by assumption.
   destruct (mem_nat i (p_hard (port_at a q))); [|apply Sh2; assumption].
-  unfold initial_of. rewrite Hnd. apply (w_shape a WF q Hq).
+  unfold initial_of. rewrite Hnd. apply (w_shape a WF q Hq). exact Hnd.
 Qed.
 
 Lemma shaped_set_elem : forall a s i k v s',
@@ -632,7 +632,7 @@ Lemma shaped_initial : forall a, wf_app a -> shaped a (initial a).
 Proof.
   intros a WF. split; [unfold initial; rewrite map_length, seq_length; reflexivity|].
   intros i Hi Hnd. rewrite val_at_initial by assumption. unfold initial_of. rewrite Hnd.
-  apply (w_shape a WF i Hi).
+  apply (w_shape a WF i Hi). exact Hnd.
 Qed.
 
 Section Line.
